@@ -380,4 +380,50 @@ theorem phaseBlocks_map (sel : Leaf → Bool) (tc : Nat) (bs : List BB) :
 def guardsFor (r : Bool) (nb : Nat) (l : Leaf) : List Nat :=
   (if dmOf l then [nb - 1] else []) ++ (if cpOf r l then [0] else [])
 
+/-! leaves listed by `labB` are leaves of the block -/
+
+mutual
+theorem mem_labO_any (sel : Leaf → Bool) (l : Leaf) (hl : sel l = true) (hs : ∀ k, sel (regEv k) = false) :
+    (o : Op) → (gs g : List Nat) → (l, g) ∈ labO gs o → anyO sel o = true
+  | .leaf x, gs, g, h => by
+      simp only [labO, List.mem_singleton, Prod.mk.injEq] at h
+      rw [← h.1]; simpa [anyO] using hl
+  | .guard c b, gs, g, h => by
+      simp only [labO] at h
+      simp only [anyO]
+      exact mem_labB_any sel l hl hs b _ g h
+  | .reg k kind rs, gs, g, h => by
+      simp only [labO, List.mem_cons, Prod.mk.injEq] at h
+      rcases h with h | h
+      · rw [h.1, hs] at hl; cases hl
+      · simp only [anyO]
+        exact mem_labRs_any sel l hl hs rs gs g h
+theorem mem_labB_any (sel : Leaf → Bool) (l : Leaf) (hl : sel l = true) (hs : ∀ k, sel (regEv k) = false) :
+    (b : Blk) → (gs g : List Nat) → (l, g) ∈ labB gs b → anyB sel b = true
+  | .nil, gs, g, h => by simp [labB] at h
+  | .cons o r, gs, g, h => by
+      simp only [labB, List.mem_append] at h
+      simp only [anyB, Bool.or_eq_true]
+      rcases h with h | h
+      · exact Or.inl (mem_labO_any sel l hl hs o gs g h)
+      · exact Or.inr (mem_labB_any sel l hl hs r gs g h)
+theorem mem_labRs_any (sel : Leaf → Bool) (l : Leaf) (hl : sel l = true) (hs : ∀ k, sel (regEv k) = false) :
+    (rs : Regs) → (gs g : List Nat) → (l, g) ∈ labRs gs rs → anyRs sel rs = true
+  | .nil, gs, g, h => by simp [labRs] at h
+  | .cons b rs, gs, g, h => by
+      simp only [labRs, List.mem_append] at h
+      simp only [anyRs, Bool.or_eq_true]
+      rcases h with h | h
+      · exact Or.inl (mem_labB_any sel l hl hs b gs g h)
+      · exact Or.inr (mem_labRs_any sel l hl hs rs gs g h)
+end
+
+/-- one phase keeps the leaves: a leaf of the block is still listed after the phase (with relabelled guards) -/
+theorem mem_lab_goB (sel : Leaf → Bool) (tc : Nat) (hsel : ∀ k, sel (regEv k) = false) (b : Blk)
+    (l : Leaf) (g : List Nat) (h : (l, g) ∈ labB [] b) :
+    ∃ g', (l, g') ∈ labB [] (goB sel tc b []) := by
+  rw [lab_goB sel tc hsel b [] [] (by simp)]
+  simp only [List.reverse_nil, List.map_nil, List.nil_append, List.mem_map]
+  exact ⟨_, (l, g), h, rfl⟩
+
 end SnaxVerif.Dispatch
